@@ -193,7 +193,7 @@ def write_python(path, data):
     with open(path, 'w') as f:
         for k, v in data.items():
             if isinstance(v, str):
-                v = '"%s"' % v
+                v = repr(v)
             f.write('%s = %s\n' % (k, str(v)))
 
 
